@@ -10,7 +10,7 @@ ID = "C04"
 LEVEL = "exploration"
 RULE = ("streams from the independent reference producer (random legal policy: eviction LRU/FIFO/MRU/random, arbitrary "
         "IRI split points, explicit vs zero ids, early and redundant entries, elision on/off, arbitrary frame cuts, empty "
-        "frames, metadata, repeated identical options rows, split graphs, delimited or single frame, versions 1-2, "
+        "frames, metadata, repeated identical options rows, split and empty graphs, delimited or single frame, versions 1-2, "
         "names 8..4096, prefixes/datatypes 0..4096), each first verified by the reference decoder, parsed with the six "
         "parse entry points; oracle: events == intended events (sequence for flat/generic, per frame for grouped, set "
         "for rdflib stores). Non-trivial: the stream actually used >= 2 kinds of legal-but-unlike-pyjelly choices; "
@@ -147,7 +147,7 @@ def run_shard(ctx):
         kinds = sum(1 for k in ("evict-fifo", "evict-mru", "evict-random", "split-random", "split-none",
                                 "split-all-prefix", "explicit-entry-id", "explicit-name-id", "explicit-prefix-id",
                                 "early-entry", "redundant-entry", "options-repeat", "empty-frame",
-                                "elision-declined", "random-free-slot", "split-graph", "metadata")
+                                "elision-declined", "random-free-slot", "split-graph", "metadata", "empty-graph")
                     if pr.used.get(k))
         if w is not None:
             w.update({"mode": mode, "bytes": pr.data.hex(), "delimited": delimited,
